@@ -17,6 +17,7 @@ import (
 	"encoding/json"
 	"fmt"
 	"io"
+	"os"
 	"path/filepath"
 	"sort"
 	"strings"
@@ -228,17 +229,41 @@ func run(c *hlib.Ctx) *hlib.Run {
 		ref := map[int]*observation{}
 		// results of a separately built instance in a separate, fresh process
 		var fresh []classifier.Results
+		var requery func(i int) bool
 		if c.Args["noref"] == "" {
 			rb, _ := json.Marshal(req)
-			ans, err := hlib.CallReference(c.Args, c.Tier, rb)
-			if err != nil {
-				panic("reference process failed: " + err.Error())
+			// the reference process runs the UNINSTRUMENTED library when the
+			// runner built one: real runtime, real (random) map iteration order
+			refBin, refKind := os.Args[0], "instrumented build, sorted map order"
+			if pb := c.Args["plainbin"]; pb != "" {
+				if _, err := os.Stat(pb); err == nil {
+					refBin, refKind = pb, "uninstrumented build, the runtime's own map order"
+					out.Counters["reference_process_uninstrumented"]++
+				}
 			}
-			if err := json.Unmarshal(ans, &fresh); err != nil || len(fresh) != nin {
-				panic(fmt.Sprintf("reference process answer unusable: %v", err))
+			query := func() []classifier.Results {
+				ans, err := hlib.CallReferenceBin(refBin, c.Args, c.Tier, rb)
+				if err != nil {
+					panic("reference process failed: " + err.Error())
+				}
+				var r []classifier.Results
+				if err := json.Unmarshal(ans, &r); err != nil || len(r) != nin {
+					panic(fmt.Sprintf("reference process answer unusable: %v", err))
+				}
+				return r
+			}
+			fresh = query()
+			requery = func(i int) (differ bool) {
+				// ask two more fresh processes: do separate processes agree among themselves?
+				for k := 0; k < 2; k++ {
+					if v2kit.FirstDiff(fresh[i], query()[i]) != "" {
+						return true
+					}
+				}
+				return false
 			}
 			for i := range fresh {
-				ref[i] = &observation{fresh[i], fmt.Sprintf("Match(input %d %q) on a canonically built instance in a fresh process (no history, no tracing)", i, inputs[i].Desc)}
+				ref[i] = &observation{fresh[i], fmt.Sprintf("Match(input %d %q) on a canonically built instance in a fresh process (%s; no history, no tracing)", i, inputs[i].Desc, refKind)}
 			}
 			out.Counters["reference_process_results"] += int64(nin)
 		}
@@ -297,6 +322,9 @@ func run(c *hlib.Ctx) *hlib.Run {
 						what := d
 						if v2kit.SameMultiset(r0.res, res) {
 							what = "order-only"
+						}
+						if requery != nil && fresh != nil && ii < len(fresh) && r0.res.TotalInputLines == fresh[ii].TotalInputLines && requery(ii) {
+							what += "(fresh processes disagree among themselves)"
 						}
 						viol = &hlib.Violation{Oracle: "same-input-same-results", Class: "nondeterministic-results:" + what,
 							Message: fmt.Sprintf("the same bytes gave different Results (first difference: %s)\n  first:  %s\n          %s\n  later:  %s\n          %s", d, r0.desc, v2kit.Pretty(r0.res), desc, v2kit.Pretty(res))}
@@ -430,7 +458,7 @@ func main() {
 				"real_code":   []string{"v2 classifier package, re-compiled from the tree under test after source instrumentation (map-range seam only)", "go-diff, go-spew: unmodified"},
 				"simulated":   []string{"iteration order of every map ranged over in package classifier (seeded permutation per range statement execution)", "io.Reader for MatchFrom operations"},
 				"unmodelled":  simrt.Unmodelled(),
-				"processes":   "every run executes in a fresh child process; the reference results come from a second fresh process that builds the corpus canonically and only calls Match",
+				"processes":   "every run executes in a fresh child process; the reference results come from a second fresh process, built from the UNINSTRUMENTED tree (real runtime map order), that builds the corpus canonically and only calls Match",
 				"model":       "reference = Results of the fresh reference process (else the first Results observed for (world, input bytes); every later observation on any instance, at any point of the history, under any map permutation and trace configuration must be bit-identical)",
 				"not_checked": "that results are right (C01-C03), trace text",
 			}
